@@ -124,6 +124,16 @@ CLAIMED = {
             "The generator satisfies the premise by construction; extension-requirement inference and OpDef instantiation are not modelled; "
             "an exhaustive HugrBuilder state-space leg is added by harness/props/builder_model.py when present (see evidence legs).",
             "DESIGN.md §5 C01"),
+    "C15": ("TLA+ spec HugrTracked.tla (tracked list + the explicit program it denotes): TLC complete state graph with "
+            "FreedForGood/OnlyGrows/WellWired + paired replay on TrackedDfg and plain Dfg (S->C) + trace validation of random tracked "
+            "programs (C->S)",
+            "TLC explores all programs of <=2 commands over width 2 with mixed integer/wire arguments (same index twice, multi-output ops, "
+            "untracked holes), a sample of the distinct states is replayed on a real TrackedDfg and, with the wires the specification "
+            "substitutes, on a plain Dfg: returned indices/wires, the tracked list, the explicit program read back from both HUGRs "
+            "(ops, links, metadata), outputs and both documents are compared; random programs of 10-60 calls over width 3 are validated "
+            "step by step by Trace_HugrTracked.",
+            "Non-negative indices; after a refused call (IndexError) the behaviour ends (partial effects are not compared).",
+            "DESIGN.md §5 C15"),
 }
 
 NOT_YET = "check not built yet in this round (planned: see DESIGN.md §5); nothing is claimed for it until its TLA+ spec and conformance legs exist"
